@@ -96,6 +96,36 @@ Theorem C20_conc_model_passes : forall n, (1 <= n)%nat -> ok_conc (conc_model n)
 Proof. exact conc_model_ok. Qed.
 Print Assumptions C20_conc_model_passes.
 
+(* 3b. replaced_pull_releases_consumers.  Two overlapping first requests where consumers attach to the
+   stream they were handed BEFORE the other registration happens (so the replaced stream is not
+   closed at the replacement — it has a consumer — and only gets the retire task), and the cameras
+   end later.  Over the registry specification (Model/Registry.v, C05/C03): streams 0 and 1 are the
+   two pull streams; [ops] is ANY history — the two registrations, any number of attaches/detaches on
+   either stream, lookups, idle tasks, in any order — in which both cameras end (a camera's end =
+   playStream's deferred media.Unregist = GUnregist).  Then both streams have ended, no consumer is
+   attached to either, every consumer ever attached has been released (Close called; [released] =
+   [st_att_total], cf. C03_registry_end_releases) and no key resolves to either stream. *)
+Theorem C20_replaced_pull_releases_consumers : forall (p : bytes) (h0 h1 : bool) (ops : list gop),
+  In (GUnregist 0) ops -> In (GUnregist 1) ops ->
+  let sp := sexec sinit (GNew p h0 :: GNew p h1 :: ops) in
+  (forall i, (i < 2)%nat ->
+     st_live (sp_get sp i) = false /\ consumers (sp_get sp i) = 0 /\
+     released (sp_get sp i) = st_att_total (sp_get sp i)) /\
+  (forall k, sp_resolve sp k <> Some 0%nat /\ sp_resolve sp k <> Some 1%nat).
+Proof. exact replaced_pull_releases_consumers. Qed.
+Print Assumptions C20_replaced_pull_releases_consumers.
+
+(* the replayed scenarios (Model/C20Replaced.v: consumer on stream 0 / stream 1 or not, either camera
+   ending first) are such histories, well-formed in the sense of C05 (so the implementation model
+   of the registry answers like the specification on them), and the observations the model predicts
+   at the three points meet the demand [ok_repl] that the check applies to the real code *)
+Theorem C20_replaced_model_passes : forall a1 a2 e,
+  C20Replaced.ok_repl a1 a2 e (C20Replaced.repl_model a1 a2 e) = true /\
+  hist_wf sinit (C20Replaced.repl_phase3 a1 a2 e) = true /\
+  In (GUnregist 0) (C20Replaced.repl_phase3 a1 a2 e) /\ In (GUnregist 1) (C20Replaced.repl_phase3 a1 a2 e).
+Proof. exact repl_model_ok. Qed.
+Print Assumptions C20_replaced_model_passes.
+
 (* 4. the boolean specification [ok_rounds] — written from the property text, independent of the
    request function — is the oracle the check applies to the implementation's observations
    (Run/RunC20.v x_C20_ok); the model satisfies it for every configuration and all scripts *)
